@@ -97,6 +97,16 @@ def gen_locations(tier, rnd):
 
 def gen_inputs(tier, rnd):
     yield from gen_locations(tier, rnd)
+    # the second pass of one Reader whose first pass was ended by its first data row (on_error='raise'), under header rows:
+    # rows are numbered from the start again
+    for header in (1, 2, 3):
+        for k in range(6 if tier == "quick" else 40):
+            spec = V.gen_spec(rnd, fmt="delimited", header=header)
+            width = len(spec["fields"])
+            good = V.gen_table(rnd, spec, nrows=3, ragged=False)
+            table = [["h"] * width] * header + [["x"] * (width + 1)] + good + [["y"] * (width + 2)]
+            yield {"spec": spec, "table": table, "mode": "raise", "prepass": True}
+            yield {"spec": spec, "table": table[:header] + good[:1] + table[header:], "mode": "raise", "prepass": True}
     n = 700 if tier == "quick" else 8000
     for _ in range(n):
         spec = V.gen_spec(rnd)
